@@ -397,8 +397,10 @@ func (stub *stub) Start(ctx context.Context) (retErr error) {
 		return fmt.Errorf("failed to multiplex ttrpc client connection: %w", err)
 	}
 
+	closedC := make(chan struct{})
 	clientOpts := []ttrpc.ClientOpts{
 		ttrpc.WithOnClose(func() {
+			close(closedC)
 			stub.connClosed(rpcm)
 		}),
 	}
@@ -430,7 +432,12 @@ func (stub *stub) Start(ctx context.Context) (retErr error) {
 		return err
 	}
 
-	if err = <-stub.cfgErrC; err != nil {
+	select {
+	case err = <-stub.cfgErrC:
+	case <-closedC:
+		err = errors.New("connection to NRI/Runtime closed before plugin got configured")
+	}
+	if err != nil {
 		return err
 	}
 
